@@ -154,7 +154,7 @@ impl SemanticState {
 
         for (extern_path, attributes) in &module.extern_types {
             let mut size = None;
-            let mut alignment = None;
+            let mut alignment: Option<usize> = None;
             for attribute in attributes {
                 let Some((ident, exprs)) = attribute.function() else {
                     continue;
@@ -183,6 +183,12 @@ impl SemanticState {
             let alignment = alignment.with_context(|| {
                 format!("failed to find `align` attribute for extern type `{extern_path}` in module `{path}`")
             })?;
+
+            if !alignment.is_power_of_two() {
+                anyhow::bail!(
+                    "`align` attribute {alignment} of extern type `{extern_path}` in module `{path}` is not a power of two"
+                );
+            }
 
             let extern_path = path.join(extern_path.as_str().into());
 
@@ -218,6 +224,11 @@ impl SemanticState {
     }
 
     pub fn build(mut self) -> anyhow::Result<ResolvedSemanticState> {
+        let pointer_size = self.type_registry.pointer_size();
+        if !pointer_size.is_power_of_two() {
+            anyhow::bail!("pointer size {pointer_size} is not a power of two");
+        }
+
         loop {
             let to_resolve = self.type_registry.unresolved();
             if to_resolve.is_empty() {
